@@ -4,6 +4,7 @@
 
 use super::*;
 use crate::verif_common::*;
+use byteorder::ReadBytesExt as _;
 
 pub const MAGIC: [u8; 6] = [0xFD, 0x37, 0x7A, 0x58, 0x5A, 0x00];
 
@@ -182,4 +183,311 @@ pub fn xz0_trailing_byte() {
 #[cfg_attr(kani, kani::stub(std::io::Error::is_interrupted, crate::verif_common::stub_not_interrupted))]
 pub fn xz0_trailing_four() {
     xz_zero_block::<0, 4>()
+}
+
+// ---------------------------------------------------------------------------------------
+// Block-level units (the block path is decided function by function; see DESIGN C03)
+// ---------------------------------------------------------------------------------------
+
+//@ harness props=C03,C06,C07,C13 tier=quick unwind=12 unwindset=default_read_exact:4 mem_gb=4 timeout=600
+//@ bound: get_multibyte on 10 fully symbolic bytes (all 1..9-byte encodings, over-long input)
+#[cfg_attr(kani, kani::proof)]
+#[cfg_attr(kani, kani::stub(std::fmt::format, crate::verif_common::stub_format))]
+#[cfg_attr(kani, kani::stub(std::io::Error::is_interrupted, crate::verif_common::stub_not_interrupted))]
+pub fn xzblk_multibyte_any() {
+    let mut t = Tape::<16>::new();
+    let f: [u8; 10] = t.bytes::<10>();
+    let mut rd = ArrReader::<10>::new(f, 10);
+    let r = get_multibyte(&mut rd);
+    // specification: little-endian base-128, at most 9 bytes
+    let mut val: u64 = 0;
+    let mut used = 0usize;
+    let mut done = false;
+    let mut i = 0;
+    while i < 9 {
+        if !done {
+            val |= ((f[i] & 0x7F) as u64) << (7 * i);
+            used = i + 1;
+            if f[i] & 0x80 == 0 {
+                done = true;
+            }
+        }
+        i += 1;
+    }
+    match &r {
+        Ok(v) => {
+            vassert!(done, "multibyte: Ok needs a terminating byte within nine bytes");
+            vassert!(*v == val, "multibyte: value = sum of 7-bit groups, least significant first");
+            vassert!(rd.pos == used, "multibyte: consumes exactly the encoding");
+            vcover!(used == 9, "nine_byte_encoding");
+            vcover!(used == 1, "one_byte_encoding");
+        }
+        Err(_) => {
+            vassert!(!done, "multibyte: Err only for nine continuation bytes");
+            vcover!(true, "overlong_rejected");
+        }
+    }
+    forget(r);
+}
+
+/// read_block_header called directly on a block header body (everything after the size byte,
+/// before the CRC). Layout concrete per instance: FLAGS (bits 6/7 = size fields present,
+/// low bits = filters-1, reserved 0x3C), one-byte multibytes; field VALUES symbolic.
+fn block_header_unit<const FLAGS: u8, const PAD: usize>() {
+    let mut t = Tape::<32>::new();
+    let packed = t.u8() & 0x7F;
+    let unpacked = t.u8() & 0x7F;
+    let fid = t.u8() & 0x7F;
+    let psize = 1u8; // size of filter properties (concrete: it sizes an allocation and a read)
+    let prop = t.u8();
+    let mut f = [0u8; 24];
+    let mut n = 0usize;
+    f[n] = FLAGS;
+    n += 1;
+    if FLAGS & 0x40 != 0 {
+        f[n] = packed;
+        n += 1;
+    }
+    if FLAGS & 0x80 != 0 {
+        f[n] = unpacked;
+        n += 1;
+    }
+    f[n] = fid;
+    f[n + 1] = psize;
+    f[n + 2] = prop;
+    n += 3;
+    let mut k = 0;
+    while k < PAD {
+        f[n] = t.u8();
+        n += 1;
+        k += 1;
+    }
+    let mut rd = ArrReader::<24>::new(f, n);
+    let r = read_block_header(&mut rd, (n + 1) as u64);
+    let mut pad_zero = true;
+    let mut k2 = 0;
+    while k2 < PAD {
+        if f[n - 1 - k2] != 0 {
+            pad_zero = false;
+        }
+        k2 += 1;
+    }
+    let supported = (FLAGS & 0x3C) == 0 && (FLAGS & 0x03) == 0 && fid == 0x21;
+    match &r {
+        Ok(h) => {
+            vassert!((FLAGS & 0x3C) == 0, "block header: reserved flag bits are refused");
+            vassert!(fid == 0x21, "block header: only the LZMA2 filter id is accepted");
+            vassert!(pad_zero, "block header: padding must be zero");
+            vassert!(h.packed_size == if FLAGS & 0x40 != 0 { Some(packed as u64) } else { None }, "block header: compressed size field");
+            vassert!(h.unpacked_size == if FLAGS & 0x80 != 0 { Some(unpacked as u64) } else { None }, "block header: uncompressed size field");
+            vassert!(h.filters.len() == 1 && h.filters[0].props.len() == 1 && h.filters[0].props[0] == prop, "block header: one filter with its property byte");
+            vassert!(rd.pos == n, "block header: whole header consumed");
+            vcover!(true, "bh_ok");
+        }
+        Err(_) => {
+            vassert!(!(supported && pad_zero), "block header: a well-formed supported header parses");
+            vcover!(fid != 0x21 && (FLAGS & 0x3C) == 0, "unknown_filter_rejected");
+            vcover!(!pad_zero && fid == 0x21, "nonzero_padding_rejected");
+        }
+    }
+    forget(r);
+    vcover!(true, "end_reached");
+}
+
+fn one_record_index<const PADOK: bool>() {
+    let mut t = Tape::<32>::new();
+    let cnt = t.u8() & 0x7F;
+    let u = t.u8() & 0x7F;
+    let v = t.u8() & 0x7F;
+    let ru = t.u8() as u64;
+    let rv = t.u8() as u64;
+    // PADOK = true: fields symbolic, CRC32 field computed by the harness (always right);
+    // PADOK = false: fields pinned to the record, CRC32 field symbolic. (Both symbolic at once
+    // asks the solver to invert a table-driven CRC: 34 M clauses, out of memory at 8 GB.)
+    let (cnt, u, v) = if PADOK { (cnt, u, v) } else { (1u8, (ru & 0x7F) as u8, (rv & 0x7F) as u8) };
+    let crc = if PADOK { ref_crc32(&[0u8, cnt, u, v]) } else { t.u32() };
+    let c = crc.to_le_bytes();
+    let f = [0u8, cnt, u, v, c[0], c[1], c[2], c[3], 0xEE];
+    let mut rd = ArrReader::<9>::new(f, 9);
+    let records = vec![Record { unpadded_size: ru, unpacked_size: rv }];
+    let (ok, count) = {
+        let mut ci = util::CountBufRead::new(&mut rd);
+        let ind = ci.read_u8();
+        forget(ind);
+        let r = check_index(&mut ci, &records);
+        let ok = r.is_ok();
+        forget(r);
+        (ok, ci.count())
+    };
+    let canon = cnt == 1 && u as u64 == ru && v as u64 == rv && crc == ref_crc32(&f[0..4]);
+    vassert!(ok == canon, "index: accepted iff record count, both sizes and the CRC32 agree with the decoded block");
+    if ok {
+        vassert!(count == 8 && rd.pos == 8, "index: size counted = indicator + records + padding + CRC; nothing beyond it is read");
+    }
+    vcover!(ok, "index_ok");
+    vcover!(!ok && cnt == 1 && u as u64 == ru && v as u64 == rv, "index_crc_rejected");
+    forget(records);
+}
+
+/// validate_block_check on N symbolic payload bytes and a symbolic check field.
+fn block_check_unit<const N: usize, const METHOD: u8>() {
+    let mut t = Tape::<32>::new();
+    let data: [u8; N] = t.bytes::<N>();
+    let field: [u8; 8] = t.bytes::<8>();
+    let mut rd = ArrReader::<8>::new(field, 8);
+    let m = match METHOD {
+        0 => CheckMethod::None,
+        1 => CheckMethod::Crc32,
+        4 => CheckMethod::Crc64,
+        _ => CheckMethod::Sha256,
+    };
+    let r = validate_block_check(&mut rd, &data[..], m);
+    let ok = r.is_ok();
+    forget(r);
+    match METHOD {
+        0 => {
+            vassert!(ok && rd.pos == 0, "block check: None reads nothing and accepts");
+        }
+        1 => {
+            let want = ref_crc32(&data[..]);
+            vassert!(ok == (u32::from_le_bytes([field[0], field[1], field[2], field[3]]) == want), "block check: CRC32 accepted iff it is the CRC32 of the block's data");
+            vassert!(rd.pos == 4, "block check: CRC32 field is four bytes");
+        }
+        4 => {
+            let want = ref_crc64(&data[..]);
+            vassert!(ok == (u64::from_le_bytes(field) == want), "block check: CRC64 accepted iff it is the CRC64 of the block's data");
+            vassert!(rd.pos == 8, "block check: CRC64 field is eight bytes");
+        }
+        _ => {
+            vassert!(!ok, "block check: SHA-256 is refused");
+        }
+    }
+    vcover!(ok, "check_ok");
+    vcover!(!ok, "check_rejected");
+}
+
+//@ harness props=C03,C06,C18,C07 tier=quick unwind=8 unwindset=default_read_exact:4,flush_zero_padding:4,block_header_unit:10 mem_gb=6 timeout=600
+//@ bound: read_block_header directly: flags 0x00 (concrete layout), 3 padding bytes; size values, filter id (<0x80), property byte and padding bytes symbolic
+#[cfg_attr(kani, kani::proof)]
+#[cfg_attr(kani, kani::stub(std::fmt::format, crate::verif_common::stub_format))]
+#[cfg_attr(kani, kani::stub(std::io::Error::is_interrupted, crate::verif_common::stub_not_interrupted))]
+pub fn xzblk_header_f00_p3() {
+    block_header_unit::<0, 3>()
+}
+
+//@ harness props=C03,C06,C18,C07 tier=quick unwind=8 unwindset=default_read_exact:4,flush_zero_padding:4,block_header_unit:10 mem_gb=6 timeout=600
+//@ bound: read_block_header directly: flags 0xc0 (concrete layout), 1 padding bytes; size values, filter id (<0x80), property byte and padding bytes symbolic
+#[cfg_attr(kani, kani::proof)]
+#[cfg_attr(kani, kani::stub(std::fmt::format, crate::verif_common::stub_format))]
+#[cfg_attr(kani, kani::stub(std::io::Error::is_interrupted, crate::verif_common::stub_not_interrupted))]
+pub fn xzblk_header_fc0_p1() {
+    block_header_unit::<192, 1>()
+}
+
+//@ harness props=C03,C06,C18,C07 tier=quick unwind=8 unwindset=default_read_exact:4,flush_zero_padding:4,block_header_unit:10 mem_gb=6 timeout=600
+//@ bound: read_block_header directly: flags 0x40 (concrete layout), 2 padding bytes; size values, filter id (<0x80), property byte and padding bytes symbolic
+#[cfg_attr(kani, kani::proof)]
+#[cfg_attr(kani, kani::stub(std::fmt::format, crate::verif_common::stub_format))]
+#[cfg_attr(kani, kani::stub(std::io::Error::is_interrupted, crate::verif_common::stub_not_interrupted))]
+pub fn xzblk_header_f40_p2() {
+    block_header_unit::<64, 2>()
+}
+
+//@ harness props=C03,C06,C18,C07 tier=quick unwind=8 unwindset=default_read_exact:4,flush_zero_padding:4,block_header_unit:10 mem_gb=6 timeout=600
+//@ bound: read_block_header directly: flags 0x80 (concrete layout), 6 padding bytes; size values, filter id (<0x80), property byte and padding bytes symbolic
+#[cfg_attr(kani, kani::proof)]
+#[cfg_attr(kani, kani::stub(std::fmt::format, crate::verif_common::stub_format))]
+#[cfg_attr(kani, kani::stub(std::io::Error::is_interrupted, crate::verif_common::stub_not_interrupted))]
+pub fn xzblk_header_f80_p6() {
+    block_header_unit::<128, 6>()
+}
+
+//@ harness props=C03,C06,C18,C07 tier=quick unwind=8 unwindset=default_read_exact:4,flush_zero_padding:4,block_header_unit:10 mem_gb=6 timeout=600 opt_covers=bh_ok,unknown_filter_rejected,nonzero_padding_rejected
+//@ bound: read_block_header directly: flags 0x04 (concrete layout), 3 padding bytes; size values, filter id (<0x80), property byte and padding bytes symbolic
+#[cfg_attr(kani, kani::proof)]
+#[cfg_attr(kani, kani::stub(std::fmt::format, crate::verif_common::stub_format))]
+#[cfg_attr(kani, kani::stub(std::io::Error::is_interrupted, crate::verif_common::stub_not_interrupted))]
+pub fn xzblk_header_f04_p3() {
+    block_header_unit::<4, 3>()
+}
+
+//@ harness props=C03,C06,C18,C07 tier=quick unwind=8 unwindset=default_read_exact:4,flush_zero_padding:4,block_header_unit:10 mem_gb=6 timeout=600 opt_covers=bh_ok,unknown_filter_rejected,nonzero_padding_rejected
+//@ bound: read_block_header directly: flags 0x20 (concrete layout), 3 padding bytes; size values, filter id (<0x80), property byte and padding bytes symbolic
+#[cfg_attr(kani, kani::proof)]
+#[cfg_attr(kani, kani::stub(std::fmt::format, crate::verif_common::stub_format))]
+#[cfg_attr(kani, kani::stub(std::io::Error::is_interrupted, crate::verif_common::stub_not_interrupted))]
+pub fn xzblk_header_f20_p3() {
+    block_header_unit::<32, 3>()
+}
+
+//@ harness props=C03,C06,C18,C07 tier=quick unwind=8 unwindset=default_read_exact:4,flush_zero_padding:4,block_header_unit:10 mem_gb=6 timeout=600 opt_covers=bh_ok,unknown_filter_rejected,nonzero_padding_rejected
+//@ bound: read_block_header directly: flags 0x01 (concrete layout), 3 padding bytes; size values, filter id (<0x80), property byte and padding bytes symbolic
+#[cfg_attr(kani, kani::proof)]
+#[cfg_attr(kani, kani::stub(std::fmt::format, crate::verif_common::stub_format))]
+#[cfg_attr(kani, kani::stub(std::io::Error::is_interrupted, crate::verif_common::stub_not_interrupted))]
+pub fn xzblk_header_f01_p3() {
+    block_header_unit::<1, 3>()
+}
+
+//@ harness props=C03,C06,C07 tier=quick unwind=10 unwindset=default_read_exact:4,update_table:6 mem_gb=12 timeout=900 opt_covers=index_crc_rejected
+//@ bound: check_index directly with one record (symbolic sizes < 256): count / unpadded / uncompressed bytes (< 0x80) symbolic, CRC32 recomputed
+#[cfg_attr(kani, kani::proof)]
+#[cfg_attr(kani, kani::stub(std::fmt::format, crate::verif_common::stub_format))]
+#[cfg_attr(kani, kani::stub(std::io::Error::is_interrupted, crate::verif_common::stub_not_interrupted))]
+pub fn xzblk_index_one_record() {
+    one_record_index::<true>()
+}
+
+//@ harness props=C03,C06,C18,C07 tier=quick unwind=12 unwindset=default_read_exact:4,update_table:6,update_slice16:6 mem_gb=8 timeout=900 opt_covers=check_rejected
+//@ bound: validate_block_check(none) on 0 symbolic data bytes against a symbolic 8-byte check field
+#[cfg_attr(kani, kani::proof)]
+#[cfg_attr(kani, kani::stub(std::fmt::format, crate::verif_common::stub_format))]
+#[cfg_attr(kani, kani::stub(std::io::Error::is_interrupted, crate::verif_common::stub_not_interrupted))]
+pub fn xzblk_check_none() {
+    block_check_unit::<0, 0>()
+}
+
+//@ harness props=C03,C06,C18,C07 tier=quick unwind=12 unwindset=default_read_exact:4,update_table:6,update_slice16:6 mem_gb=8 timeout=900
+//@ bound: validate_block_check(crc32) on 2 symbolic data bytes against a symbolic 8-byte check field
+#[cfg_attr(kani, kani::proof)]
+#[cfg_attr(kani, kani::stub(std::fmt::format, crate::verif_common::stub_format))]
+#[cfg_attr(kani, kani::stub(std::io::Error::is_interrupted, crate::verif_common::stub_not_interrupted))]
+pub fn xzblk_check_crc32() {
+    block_check_unit::<2, 1>()
+}
+
+//@ harness props=C03,C06,C18,C07 tier=quick unwind=12 unwindset=default_read_exact:4,update_table:6,update_slice16:6 mem_gb=8 timeout=900
+//@ bound: validate_block_check(crc64) on 1 symbolic data bytes against a symbolic 8-byte check field
+#[cfg_attr(kani, kani::proof)]
+#[cfg_attr(kani, kani::stub(std::fmt::format, crate::verif_common::stub_format))]
+#[cfg_attr(kani, kani::stub(std::io::Error::is_interrupted, crate::verif_common::stub_not_interrupted))]
+pub fn xzblk_check_crc64() {
+    block_check_unit::<1, 4>()
+}
+
+//@ harness props=C03,C06,C18,C07 tier=quick unwind=12 unwindset=default_read_exact:4,update_table:6,update_slice16:6 mem_gb=8 timeout=900 opt_covers=check_ok
+//@ bound: validate_block_check(sha256) on 2 symbolic data bytes against a symbolic 8-byte check field
+#[cfg_attr(kani, kani::proof)]
+#[cfg_attr(kani, kani::stub(std::fmt::format, crate::verif_common::stub_format))]
+#[cfg_attr(kani, kani::stub(std::io::Error::is_interrupted, crate::verif_common::stub_not_interrupted))]
+pub fn xzblk_check_sha256() {
+    block_check_unit::<2, 10>()
+}
+
+//@ harness props=C03,C06,C18,C07 tier=quick unwind=12 unwindset=default_read_exact:4,update_table:6,update_slice16:6 mem_gb=8 timeout=900
+//@ bound: validate_block_check(crc32_empty) on 0 symbolic data bytes against a symbolic 8-byte check field
+#[cfg_attr(kani, kani::proof)]
+#[cfg_attr(kani, kani::stub(std::fmt::format, crate::verif_common::stub_format))]
+#[cfg_attr(kani, kani::stub(std::io::Error::is_interrupted, crate::verif_common::stub_not_interrupted))]
+pub fn xzblk_check_crc32_empty() {
+    block_check_unit::<0, 1>()
+}
+
+//@ harness props=C03,C06,C07 tier=quick unwind=10 unwindset=default_read_exact:4,update_table:6 mem_gb=12 timeout=900
+//@ bound: check_index directly with one record, fields equal to the record, CRC32 field symbolic
+#[cfg_attr(kani, kani::proof)]
+#[cfg_attr(kani, kani::stub(std::fmt::format, crate::verif_common::stub_format))]
+#[cfg_attr(kani, kani::stub(std::io::Error::is_interrupted, crate::verif_common::stub_not_interrupted))]
+pub fn xzblk_index_one_record_crc() {
+    one_record_index::<false>()
 }
